@@ -114,28 +114,7 @@ def run(ctx):
             reach = feb.reachable(start=nt, avoid=set(nexts))
             if set(inserts) & reach:
                 ctx.violation(R_B, key + "|non-delayed-marked", "an input that declares no delay is recorded as a tick edge", feb.loc(ib))
-    # ---- enemies
-    key = "dfir_lang|find_subgraph_unionfind"
-    news = [(bb, t) for bb, t in fsu.calls() if t.get("f") and t["f"]["name"] == "new" and "SubgraphMerge" in t["f"].get("impl_self", "")]
-    names = fsu.var_names()
-    argname = {l: names.get(l) for l in range(1, fsu.argc + 1)}
-    ctx.inst(R_E, key, sites=len(news), sample={"new_call_blocks": [bb for bb, _ in news], "params": argname})
-    if not news:
-        ctx.anchor_missing(R_E, "SubgraphMerge::new call")
-    for bb, t in news:
-        if len(t["a"]) < 3:
-            continue
-        p = op_place(t["a"][2])
-        params, closures = backward_sources(fsu, c, pl_local(p)) if p is not None else (set(), set())
-        have = set(argname.get(x) for x in params)
-        for need in ("edge_barrier_pairs", "access_group_pairs"):
-            if need not in have:
-                ctx.violation(R_E, "%s|enemies-missing:%s" % (key, need), "the no-merge set handed to the merger is not fed by `%s`" % need, fsu.loc(bb))
-        if not any(closure_calls(c, cd, {"node_handoff_references"}) for cd in closures):
-            ctx.violation(R_E, key + "|enemies-missing:handoff-references", "the no-merge set is not fed by the handoff-reference producers", fsu.loc(bb))
-        # preds closure reads all_preds
-        pp = op_place(t["a"][1])
-        pparams, pclos = backward_sources(fsu, c, pl_local(pp)) if pp is not None else (set(), set())
+    enemies_rule(ctx, c, fsu, R_E)
     # ---- looponly
     merges = calls_named(fsu, {"try_merge"})
     loops = [(bb, t["dst"]) for bb, t in fsu.calls() if t.get("f") and t["f"]["name"] == "node_loop" and isinstance(t.get("dst"), int)]
@@ -202,3 +181,28 @@ def run(ctx):
     import p_C26
     p_C19.accessgroups_rule(ctx, mir.load_crate("dfir_lang"), rid="C18.accessgroups")
     p_C26.remap_rule(ctx, mir.load_crate("dfir_lang"), "C18.remap")
+
+
+def enemies_rule(ctx, c, fsu, R_E):
+    """the no-merge (enemy) set handed to the merger is fed by barrier pairs, access-group pairs and handoff-reference producers"""
+    key = "dfir_lang|find_subgraph_unionfind"
+    news = [(bb, t) for bb, t in fsu.calls() if t.get("f") and t["f"]["name"] == "new" and "SubgraphMerge" in t["f"].get("impl_self", "")]
+    names = fsu.var_names()
+    argname = {l: names.get(l) for l in range(1, fsu.argc + 1)}
+    ctx.inst(R_E, key, sites=len(news), sample={"new_call_blocks": [bb for bb, _ in news], "params": argname})
+    if not news:
+        ctx.anchor_missing(R_E, "SubgraphMerge::new call")
+    for bb, t in news:
+        if len(t["a"]) < 3:
+            continue
+        p = op_place(t["a"][2])
+        params, closures = backward_sources(fsu, c, pl_local(p)) if p is not None else (set(), set())
+        have = set(argname.get(x) for x in params)
+        for need in ("edge_barrier_pairs", "access_group_pairs"):
+            if need not in have:
+                ctx.violation(R_E, "%s|enemies-missing:%s" % (key, need), "the no-merge set handed to the merger is not fed by `%s`" % need, fsu.loc(bb))
+        if not any(closure_calls(c, cd, {"node_handoff_references"}) for cd in closures):
+            ctx.violation(R_E, key + "|enemies-missing:handoff-references", "the no-merge set is not fed by the handoff-reference producers", fsu.loc(bb))
+        # preds closure reads all_preds
+        pp = op_place(t["a"][1])
+        pparams, pclos = backward_sources(fsu, c, pl_local(pp)) if pp is not None else (set(), set())
